@@ -216,3 +216,93 @@ Fixpoint unsparse (s : list Z) (f : list Z) : list Z :=
 
 Definition junk (seed : Z) (len : nat) : list Z :=
   map (fun i => (seed + 7 * Z.of_nat i) mod 256) (seq 0 len).
+
+(* ---------- the cases of the correspondence (harness/ntp-proto/c34.rs) ---------- *)
+Definition checksum (l : list Z) : Z :=
+  fst (fold_left (fun (a : Z * Z) b => ((fst a + snd a * b) mod 1000003, snd a + 1)) l (0, 1)).
+
+Inductive bop := BAdd (id : list Z) | BUnion (ids : list (list Z)) | BQuery (id : list Z).
+
+Fixpoint add_ids (f : list Z) (ids : list (list Z)) : res (list Z) :=
+  match ids with
+  | [] => Ok f
+  | id :: r => do f' <- add_id f id; add_ids f' r
+  end.
+
+Fixpoint run_bloom (f : list Z) (ops : list bop) : list Z :=
+  match ops with
+  | [] => [checksum f]
+  | BAdd id :: r =>
+      match add_id f id with Ok f' => count_ones f' :: run_bloom f' r | _ => [-99] end
+  | BUnion ids :: r =>
+      match add_ids bf_new ids with
+      | Ok g => let f' := bf_add f g in count_ones f' :: run_bloom f' r
+      | _ => [-99]
+      end
+  | BQuery id :: r =>
+      match contains_id f id with
+      | Ok b => (if b then 1 else 0) :: run_bloom f r
+      | _ => [-99]
+      end
+  end.
+
+Inductive hev :=
+| HQ (c : Z)                           (* next_request with this client cookie *)
+| HD (k : nat)                         (* the server's answer to the k-th request made so far *)
+| HJ (c : Z) (len : nat) (seed : Z)    (* [junk seed len] with cookie c *)
+| HS (plen off : Z).                   (* server side: to_response of an arbitrary request *)
+
+Definition b2z (b : bool) : Z := if b then 1 else 0.
+
+Definition deliver (r : rbf) (c : Z) (b : list Z) : rbf * list Z :=
+  match handle_response r c b with
+  | Ok r' => (r', [0; next r'; b2z (filled r')])
+  | Err e => (r, [e; next r; b2z (filled r)])
+  | Panic _ => (r, [-99])
+  end.
+
+Fixpoint run_remote (f : list Z) (r : rbf) (reqs : list (Z * Z)) (evs : list hev) : list Z :=
+  match evs with
+  | [] => (match full_filter r with Some g => [1; checksum g] | None => [-1] end) ++ [checksum (filter r)]
+  | HQ c :: t =>
+      match next_request r c with
+      | Ok (r', q) => [req_offset q; payload_len q] ++ run_remote f r' (reqs ++ [(req_offset q, c)]) t
+      | _ => [-99]
+      end
+  | HD k :: t =>
+      match nth_error reqs k with
+      | Some (off, c) =>
+          match to_response (mkReq (chunk r) off) f with
+          | Some b => let (r', o) := deliver r c b in o ++ run_remote f r' reqs t
+          | None => [-98]
+          end
+      | None => [-97]
+      end
+  | HJ c len seed :: t => let (r', o) := deliver r c (junk seed len) in o ++ run_remote f r' reqs t
+  | HS plen off :: t =>
+      (match to_response (mkReq plen off) f with
+       | Some b => [Z.of_nat (length b); checksum b]
+       | None => [-1]
+       end) ++ run_remote f r reqs t
+  end.
+
+Inductive bcase :=
+| CaseBloom (ops : list bop)
+| CaseRemote (cs : Z) (fsparse : list Z) (evs : list hev).
+
+Definition run_c34 (c : bcase) : list Z :=
+  match c with
+  | CaseBloom ops => run_bloom bf_new ops
+  | CaseRemote cs fs evs =>
+      match rbf_new cs with
+      | None => [-1]
+      | Some r => run_remote (unsparse fs bf_new) r [] evs
+      end
+  end.
+
+Fixpoint zl_eqb (a b : list Z) : bool :=
+  match a, b with
+  | [], [] => true
+  | x :: a', y :: b' => (x =? y) && zl_eqb a' b'
+  | _, _ => false
+  end.
